@@ -5,7 +5,7 @@ import vlib
 
 PROP = dict(
     id="C07",
-    corr=["Model/FsmCorr.vo", "Model/C07Corr.vo", "Model/C07Table.vo"],
+    corr=["Model/FsmCorr.vo", "Model/C07Corr.vo", "Model/C07Table.vo", "Model/C20Corr.vo", "Model/C07Watch.vo"],
     design_ref="DESIGN.md §6 C07",
     technique="Coq: invariant over all crash histories of the maker state machines, carried by a generic engine rule indexed by an accumulator folded over the effects (what the wallet has broadcast, whether a durable write followed, whether a spend was broadcast); tree-aware rule for action trees; reflective boolean checks on the generated state tables proved sound for arbitrary tables and decided by vm_compute; step-level vm_compute correspondence against the real SwapService/FSM incl. simulated process crashes at a chosen effect (real bbolt file reopened, RecoverSwaps); monitor on observed scenarios",
     level_text="Machine-checked for both maker tables generated from the code (and for any table passing the check), every history with crashes after any effect and restarts, every environment and peer behaviour: once the wallet has broadcast opening transaction o, the last durable record and every later store write name o (txid, announced vout, tx hex); that record is in a finished state only if the claim-paid notification was delivered or a spending transaction was broadcast; OnCsvPassed in every waiting state broadcasts the CSV refund; every waiting state's action (entry and recovery) registers the CSV watch on the recorded (txid, vout). The full statement is refuted by one known pattern (crash or failed store write between the wallet broadcast and the next durable write, D7): Findings/F_C07_2.v; it is excluded by the visible hypothesis no_orphan and reproduced on the real code every run. D6 (error after the wallet broadcast cancels with no record) was repaired in the repo; Findings/F_C07_1.v keeps the pre-fix witness.",
@@ -88,9 +88,25 @@ def run(ctx):
     res = vlib.eval_cases(d)
     ctx.rules.append(RULE)
     ctx.absorb(res, "fsm", signature=sig, describe=describe)
+    run_watch(ctx, 200 if ctx.quick else 3000)
+
+
+def run_watch(ctx, n, outdir=None):
+    """watcher side: the real BlockchainRpcTxWatcher keeps the output on its CSV watch list until the swap service
+    accepted the notification (registration + HandleCsvTx sequences with refused callbacks, reorgs, RPC errors)"""
+    d = ctx.harness("c20", outdir=outdir or (ctx.work + "/watch"),
+                    args=["-n", n, "-only", "csv", "-monitor", "c07_watch_monitor", "-imports", "From PS Require Import Model.C07Watch."])
+    if d is None:
+        return
+    res = vlib.eval_cases(d)
+    ctx.rules.append("watcher family: CSV registration / HandleCsvTx sequences on the real BlockchainRpcTxWatcher over scripted gettxout answers (not yet / just / long matured, reorgs, errors, refused callbacks); compared with the C20 watcher model; monitor: still watched until a callback was accepted")
+    ctx.absorb(res, "watch", signature=lambda c: "watch:matured-output-dropped-from-the-csv-watch-list-before-the-swap-accepted-the-notification",
+               mismatch_is_violation=False,
+               describe=lambda c: "the RPC watcher stopped watching a maker's opening output although no CSV notification was accepted: the refund is never triggered again")
 
 
 def search(ctx):
+    run_watch(ctx, 2000, outdir=ctx.work + "/search_watch")
     d = ctx.harness("fsm", outdir=ctx.work + "/search", args=["-n", 700] + ARGS)
     if d is None:
         return
